@@ -1,4 +1,5 @@
 import SLE.Lemmas.TCSlots
+import SLE.Lemmas.MachineFacts
 /-!
 # C06 — no missed slots
 
@@ -21,6 +22,34 @@ theorem C06_literal_key_reported (h : HashCtx) (o : Unify.Orders) (fuel : Nat) (
 /-- The slot survives value de-duplication: `unique` keeps a structurally equal representative,
 and structural equality is equality. -/
 theorem C06_dedup_keeps (a b : SV) : SV.beq a b = true → a = b := TCSlots.beq_eq a b
+
+
+/-! ### The machine side: every storage access is handed to the type checker -/
+
+/-- A store is exported by `all_values` as a `StorageWrite` of exactly its key and value … -/
+theorem C06_sstore_exported (c : VM.Ctx) (code : List Disasm.Instr) (d : VM.TData) (ctr : Nat) (k v : SV) (rest : List SV)
+    (hs : d.stack = k :: v :: rest) :
+    (VM.execOp c code (.op 0x55) d ctr).err = none ∧
+    rebuild .storageWrite [] [k, v] ∈ Pipe.allValues (VM.execOp c code (.op 0x55) d ctr).d :=
+  MachineFacts.sstore_exported c code d ctr k v rest hs
+
+/-- … a load too (the placeholder of a never-written slot, or an earlier write), in every
+reachable thread state (`StWF`: no key with an empty history — an invariant of the machine) … -/
+theorem C06_sload_exported (c : VM.Ctx) (code : List Disasm.Instr) (d : VM.TData) (ctr : Nat) (k : SV) (rest : List SV)
+    (hs : d.stack = k :: rest) (hwf : MachineFacts.StWF d) :
+    ∃ g, (g ∈ MachineFacts.gens d k ∨ g = MachineFacts.unwritten k) ∧
+      rebuild .storageWrite [] [k, g] ∈ Pipe.allValues (VM.execOp c code (.op 0x54) d ctr).d :=
+  MachineFacts.sload_exported_partial c code d ctr k rest hs hwf
+theorem C06_reachable_wf (cfg : VM.Cfg) (code : List Disasm.Instr) (fuel : Nat) :
+    ∀ th ∈ (VM.run cfg code fuel (VM.initVM cfg code)).queue ++ (VM.run cfg code fuel (VM.initVM cfg code)).stored,
+      MachineFacts.StWF th.d :=
+  MachineFacts.reachable_StWF cfg code fuel
+
+/-- … and no later instruction removes or reorders a storage history (histories only grow). -/
+theorem C06_history_append_only (c : VM.Ctx) (code : List Disasm.Instr) (ins : Disasm.Instr)
+    (d : VM.TData) (ctr : Nat) (k : SV) :
+    MachineFacts.gens d k <+: MachineFacts.gens (VM.execOp c code ins d ctr).d k :=
+  MachineFacts.execOp_storage_monotone c code ins d ctr k
 
 /-! ### Non-vacuity: a read of a never-written slot with index 2^255 + 7 -/
 def bigRead : SV :=
